@@ -461,6 +461,7 @@ PROPS["C17"] = dict(
           "probation armed by the 15th share-weak verdict and counted down over three not-weak ticks; enter < 1/4, leave >= 3/4 of fair share; INV preserved", bounds="N=2"),
         H("c17::c17_classify_step_n2_thresholds", "core", desc="same, bitrates exactly on / one permille under the enter and leave thresholds", bounds="N=2, boundary bitrates"),
         H("c17::c17_classify_step_n3", "core", bounds="N=3 (needed for: two connected links next to a disconnected one)", timeout=1500),
+        H("c17::c17_history_3", "core", tier="thorough", desc="3-tick history from a fresh filter, monitors over inputs and verdicts only (no memory accessors)", bounds="N=2, 3 ticks, grid inputs", timeout=3000),
     ],
 )
 
